@@ -5680,8 +5680,8 @@ def lvl1_level_loops_cover_all_levels(P, R, L, rule="LVL-1"):
                         ends.append((st.get("line"), sorted(ec)))
         total += len(ends)
         bad = ["line %s ends at %s" % (ln, "/".join(ec)) for ln, ec in ends if ec != ["7"]]
-        short = len(ends) < expected and len(ends) > 0
-        R.check(rule, fn + "|level-loops-end-at-MAX_NUM_LEVELS", not bad and not short, where(b),
+        # fewer ranges than on the reviewed tree is not a finding (two loops merged into one, a loop rewritten over an iterator)
+        R.check(rule, fn + "|level-loops-end-at-MAX_NUM_LEVELS", not bad, where(b),
                 "every level range of this function ends at MAX_NUM_LEVELS (7): the deepest level is visited",
                 "; ".join(bad) or ("%d level range(s)" % len(ends) if ends else "no constant level range (rewritten without a range: not decided)"))
     R.floor(rule, "constant level ranges in the listed functions", total, 6)
